@@ -204,4 +204,75 @@ def selectAll (seekFixed dedupOn repFirst : Bool) (qmint qmaxt : Int) (ss : List
         (selectRaw qmint qmaxt r).map fun v => ((if repFirst then (r.rid, l.key) else (l.key, r.rid)), v)).foldr
       (fun kv acc => insertKey kv.1 kv.2 acc) []
 
+/-! ### label sets: what a store attaches to a series, and the grouping of copies (C04, full path
+    over TSDB-backed stores)
+
+  Specification of the store side (proved for the stores themselves in the `stores` family, C08:
+  a store asked for `WithoutReplicaLabels` returns no series carrying one of these labels, whether
+  the label comes from its external labels or is stored with the series): the store removes EVERY
+  requested replica label from BOTH the series' own labels and its external labels, then extends
+  the former by the latter (`labelpb.ExtendSortedLabels`: an external label wins over a series
+  label of the same name).  The querier itself never removes a replica label: it passes them down
+  and `dedup.NewSeriesSet` merges neighbouring series with EQUAL label sets. -/
+
+abbrev Lbl := String × String
+
+/-- `rmLabels` (pkg/store/proxy_merge.go) -/
+def rmLabels (rl : List String) (ls : List Lbl) : List Lbl := ls.filter fun l => !rl.contains l.1
+
+def insertLbl (l : Lbl) : List Lbl → List Lbl
+  | [] => [l]
+  | m :: ms => if l.1 < m.1 then l :: m :: ms else if l.1 = m.1 then l :: ms else m :: insertLbl l ms
+
+/-- `labelpb.ExtendSortedLabels`: `labels.NewBuilder(lset)` + `Set` of every external label; the
+    result is sorted by name -/
+def extendLabels (ser ext : List Lbl) : List Lbl :=
+  ext.foldl (fun acc l => insertLbl l acc) (ser.foldl (fun acc l => insertLbl l acc) [])
+
+/-- the label set `TSDBStore.Series` attaches to a series when asked to strip `rl` -/
+def storeLabels (rl : List String) (ext ser : List Lbl) : List Lbl :=
+  extendLabels (rmLabels rl ser) (rmLabels rl ext)
+
+def showLbls (ls : List Lbl) : String := ",".intercalate (ls.map fun l => l.1 ++ "=" ++ l.2)
+
+structure TStore where
+  ext : List Lbl
+  series : List (List Lbl × List Sample)
+
+/-- all copies with the label set under which they reach the querier: `(labels, store, samples)` -/
+def tsdbCopies (rl : List String) (stores : List TStore) : List (List Lbl × Nat × List Sample) :=
+  (stores.zipIdx).flatMap fun (st, i) => st.series.map fun (ls, sm) => (storeLabels rl st.ext ls, i, sm)
+
+/-- group the copies by label set (first appearance order); the fuel is the number of copies -/
+def groupCopiesF : Nat → List (List Lbl × Nat × List Sample) → List (List Lbl × List (Nat × List Sample))
+  | 0, _ => []
+  | _, [] => []
+  | n + 1, (ls, i, sm) :: rest =>
+    let same := rest.filter fun c => c.1 == ls
+    let other := rest.filter fun c => !(c.1 == ls)
+    (ls, (i, sm) :: same.map (·.2)) :: groupCopiesF n other
+
+def groupCopies (cs : List (List Lbl × Nat × List Sample)) : List (List Lbl × List (Nat × List Sample)) :=
+  groupCopiesF cs.length cs
+
+def insertByName (kv : String × Option (List Sample)) :
+    List (String × Option (List Sample)) → List (String × Option (List Sample))
+  | [] => [kv]
+  | x :: xs => if kv.1 ≤ x.1 then kv :: x :: xs else x :: insertByName kv xs
+
+/-- the whole read path over TSDB-backed stores (every series of a TSDB is one chunk here: the
+    harness keeps a series below the head's chunk cut).  Deduplication on: the requested replica
+    labels are stripped by the stores (or, for stores that do not support it, by the proxy — the
+    same specification), copies with equal remaining labels form one logical series.  Off: nothing
+    is stripped; copies with equal labels are still one series for the proxy. -/
+def selectTSDB (seekFixed dedupOn : Bool) (rl : List String) (qmint qmaxt : Int) (stores : List TStore) :
+    List (String × Option (List Sample)) :=
+  let groups := groupCopies (tsdbCopies (if dedupOn then rl else []) stores)
+  (groups.filterMap fun (ls, cps) =>
+    let reps : List RReplica := cps.zipIdx.map fun ((st, sm), j) =>
+      { rid := j, chunks := if sm.isEmpty then [] else [{ store := st, rank := 0, samples := sm }] }
+    let r := if dedupOn then selectDedup seekFixed qmint qmaxt { key := 0, reps := reps }
+             else selectRaw qmint qmaxt { rid := 0, chunks := reps.flatMap (·.chunks) }
+    r.map fun v => (showLbls ls, v)).foldr insertByName []
+
 end Thanos.Dedup
